@@ -437,7 +437,7 @@ func gen808(c *Ctx, pa string, budget time.Duration) {
 				}
 			default: // a valid conversation with byte mutations
 				b = conv(v, bcd)
-				for m := rng.Intn(4); m >= 0; m-- {
+				for m := rng.Intn(4); m >= 0 && len(b) > 1; m-- {
 					p := rng.Intn(len(b))
 					switch rng.Intn(5) {
 					case 0:
@@ -453,9 +453,12 @@ func gen808(c *Ctx, pa string, budget time.Duration) {
 					}
 				}
 			}
-			cuts := RandCuts(rng, len(b), rng.Intn(4))
-			for _, ch := range Chunks(b, cuts) {
-				s.D(k, ch)
+			if len(b) > 1 {
+				for _, ch := range Chunks(b, RandCuts(rng, len(b), rng.Intn(4))) {
+					s.D(k, ch)
+				}
+			} else {
+				s.D(k, b)
 			}
 			switch rng.Intn(4) {
 			case 0:
@@ -621,8 +624,8 @@ func genAtt(c *Ctx, budget time.Duration) {
 			k := s.hostile()
 			s.O(k)
 			b := append([]byte{}, up...)
-			for m := rng.Intn(3); m >= 0; m-- {
-				p := rng.Intn(len(b))
+			for m := rng.Intn(3); m >= 0 && len(b) > 4; m-- {
+				p := rng.Intn(len(b) - 3)
 				switch rng.Intn(4) {
 				case 0:
 					b[p] ^= byte(1 << rng.Intn(8))
